@@ -13,7 +13,11 @@ def run(ctx):
                 'every collision C13 names (two operators with one name, one NodeTemplate object used by two circuits, two '
                 'operators of equal structure, compiles with/without clear and vectorize); one behaviour per distinct abstract '
                 'state whose last call returns a function; each is replayed in one fresh process and the linear field of the '
-                'returned function is compared exactly with the meaning of the template; non-trivial = at least 2 calls')
+                'returned function is compared exactly with the meaning of the template; non-trivial = at least 2 calls.  A second '
+                'exploration follows the circuit loaded from a YAML file through from_yaml / update_var / compile (clear, decorator) / '
+                'clear(model) to depth 6 with one behaviour per abstract state AND sequence of (call kind, clear flag), i.e. path '
+                'coverage of template_cache and of clear(); compiles with a user decorator must yield the decorated field of '
+                'their own model')
     ctx.assumptions += ['in_place=False in every compile (in_place=True consumes the template: documented)',
                         'default backend; the Fortran extension-module staleness (D24) is covered by a pinned reproducer only',
                         'the observable is the linear vector field probed on unit vectors plus the initial state']
@@ -24,7 +28,7 @@ def run(ctx):
     behs = ac.dedupe(behs + cy)
     ctx.notes['deviations_detected_by'] = {d: ac.vacuity(ctx, CALLS, d) for d in ('OpCacheKeyedByName', 'NodeCacheSurvives', 'StateStash')}
     ctx.notes['deviations_detected_by'].update({d: ac.vacuity(ctx, ac.CY_CALLS, d, maxlen=4) for d in ('TemplateCacheByPath', 'ClearSkipsWhenNoIR')})
-    ac.judge_all(ctx, behs, 'compiled model after a history of API calls', cap=4500 if ctx.tier == "quick" else 45000)
+    ac.judge_all(ctx, behs, 'compiled model after a history of API calls', cap=6000 if ctx.tier == "quick" else 45000)
     ac.pinned_d09(ctx)
     for b in behs[len(behs) // 2: len(behs) // 2 + 2]:
         ctx.sample(dict(calls=b['calls'], expected_units=b['expM'], dev=b['dev']))
